@@ -24,7 +24,7 @@ import (
 
 func TestMain(m *testing.M) { kit.Main(m) }
 
-const rule = "a fixed component set (provider populations with ties, Primary/unnamed/qualifier attributes and holders that are candidates of their own points; node-family graphs) is started r times (quick 6, thorough 16) on fresh instances, each time with an independently drawn registration order and registry enumeration order (fixed ranks, per-call reshuffle, or the runtime's own sync.Map order); oracle: same success/failure in all runs, and every point receives the same component(s) in all runs unless the reference model ranks several candidates equally, in which case every value lies in that tied set; non-trivial = the scenario has a tied point or a holder that is its own candidate, and >=3 distinct orders were applied; distinct by scenario shape"
+const rule = "a fixed component set (provider populations with ties, Primary/unnamed/qualifier attributes and holders that are candidates of their own points; node-family graphs) is started r times (quick 6, thorough 16) on fresh instances, each time with an independently drawn registration order and registry enumeration order (fixed ranks, per-call reshuffle, or the runtime's own sync.Map order); oracle: same success/failure in all runs, and every point receives the same component(s) in all runs unless the reference model ranks several candidates equally, in which case every value lies in that tied set; non-trivial = the scenario has a tied point or a holder that is its own candidate, and >=3 distinct orders were applied; distinct by scenario shape; since round 7 also zero-size providers and custom names equal to the bare type name of another node; after-initialization-only decorators are excluded (known finding)"
 
 func reps() int {
 	if kit.Tier() == "thorough" {
